@@ -168,7 +168,7 @@ let check acc ~klass ~(ops : (string * string) list) ~maxmem ~pool ~use_write ~f
           bump acc "seek_on_sorter_iterator";
           let expect2 = List.filter (fun (k, _) -> compare k target >= 0) expect in
           if canon out2 <> expect2 then
-            fail acc ~kind:"spec_violation" ~what:"[C06,C05] after mtbl_iter_seek on the sorter's iterator the entries delivered are not exactly those with key >= target, in order"
+            fail acc ~kind:"spec_violation" ~what:((if pool <> 0 then "[C06,C05,C13]" else "[C06,C05]") ^ " after mtbl_iter_seek on the sorter's iterator the entries delivered are not exactly those with key >= target, in order")
               (JO [ "case", casej (); "target", jbytes target; "got", entries_json out2 ])
         | None -> ());
        if o.late_add then fail acc ~kind:"spec_violation" ~what:"[C06] mtbl_sorter_add accepted after iteration had begun" (casej ());
